@@ -523,6 +523,20 @@ func work(ctx *runner.Ctx) {
 			cases = append(cases, cs{A: c, Regime: "all", P: 2}, cs{A: c, B: c, Regime: "all", P: 1})
 		}
 	}
+	// 7. a flush that is large for a "small message" followed by a small flush / Close, at 2 preemptions: the writer
+	// goroutine can be stopped between taking a buffer and writing it while the sender goes on
+	mixed := [][]Op{
+		{{K: "d", N: 200}, flush, {K: "b"}},
+		{{K: "d", N: 200}, flush, {K: "w"}, flush},
+		{{K: "d", N: 5000}, {K: "h"}},
+	}
+	for i, m := range mixed {
+		if quick && i == 2 {
+			cases = append(cases, cs{A: m, Regime: "all", P: 1})
+			continue
+		}
+		cases = append(cases, cs{A: m, Regime: "all", P: 2})
+	}
 	// the long fixed sequence of the repository's own test shape
 	long := []Op{{K: "b"}, {K: "h"}, {K: "w"}, {K: "d", N: 17}, {K: "s", N: 3}, {K: "l"}, {K: "z", N: 3}, flush, {K: "d", N: 65537}, {K: "w"}, {K: "l"}}
 	cases = append(cases, cs{A: long, Regime: "dev", P: 0, E: 2, F: fb}, cs{A: long, B: long, Regime: "all", P: 0, F: fb})
